@@ -466,6 +466,38 @@ func (w *worker) group(s *snapshot, filter *vnode.Node, mr methodRef, actorIdx i
 			}
 		}
 	}
+	// diagonals: two arguments of the same ABI type with the same domain (total and maximum supply, the two reward
+	// percentages, ...) take the same non-central value together; limits that relate the two are only reached this way
+	if centre != nil {
+		for i := 0; i < na; i++ {
+			for k := i + 1; k < na; k++ {
+				if m.Inputs[i].Type.String() != m.Inputs[k].Type.String() || len(doms[i]) != len(doms[k]) {
+					continue
+				}
+				same := true
+				for j := range doms[i] {
+					if doms[i][j].L != doms[k][j].L {
+						same = false
+					}
+				}
+				if !same {
+					continue
+				}
+				for j := range doms[i] {
+					if j == centre[i] && j == centre[k] {
+						continue
+					}
+					t := append([]int{}, centre...)
+					t[i], t[k] = j, j
+					if isAcc[tkey(t)] {
+						star = append(star, t)
+					} else if !within(t, dims) && try(t) {
+						star = append(star, t)
+					}
+				}
+			}
+		}
+	}
 	w.r.Count("cpu_ms_filter", cpuMs()-cf)
 	inStar := map[string]bool{}
 	for _, t := range star {
